@@ -348,3 +348,25 @@ Print Assumptions C05_glue_is_the_source.
 Print Assumptions C05_glue_inverse_terminates.
 Print Assumptions C05_portable_aliasing.
 Print Assumptions C05_portable_butterfly.
+Print Assumptions C05_square.
+Print Assumptions C05_sub.
+Print Assumptions C05_neg.
+Print Assumptions C05_double.
+Print Assumptions C05_mulBy_constants.
+Print Assumptions C05_inverse_zero.
+Print Assumptions C05_div.
+Print Assumptions C05_fromMont.
+Print Assumptions C05_toMont.
+Print Assumptions C05_inv_mod_is_inverse.
+Print Assumptions C05_inverse_is_the_source.
+Print Assumptions C05_more_routines_are_the_source.
+Print Assumptions C05_inv_mod_zero.
+Print Assumptions C05_asm_sub_correct.
+Print Assumptions C05_asm_double_correct.
+Print Assumptions C05_asm_neg_correct.
+Print Assumptions C05_asm_reduce_correct.
+Print Assumptions C05_asm_MulBy3_correct.
+Print Assumptions C05_asm_MulBy5_correct.
+Print Assumptions C05_asm_MulBy13_correct.
+Print Assumptions C05_asm_fromMont_correct.
+Print Assumptions C05_asm_adx_fromMont_correct.
